@@ -555,6 +555,8 @@ pub fn macro_extra_profile() -> Space<Prog> {
         (vec![f1("F", "x", "x"), u("F", Some(vec!["(a, (b, c))"])), u("F", Some(vec!["[a][b]"])), u("F", Some(vec!["a ? b : c"]))], vec![]),
         (vec![def("A", "a \\\n b \\\n c"), Item::Text, u("A", None), Item::Text], vec![]),
         (vec![Item::Define { name: "__LINE__".into(), formals: None, body: "99".into() }, Item::Line], vec![]),
+        (vec![f1("F", "x", "\"a\\\"x\" x"), Item::Text, u("F", Some(vec!["p"])), Item::Text], vec![]),
+        (vec![f1("F", "x", "\"x\\\\\" x \"x\""), Item::Text, u("F", Some(vec!["p"])), Item::Text], vec![]),
     ];
     let layouts = Space::of(vec![Layout::OwnLine, Layout::Inline, Layout::IndentCrlf]);
     Space::of(shapes).product(layouts).map(|((items, pre), layout)| Prog { items, layout, pre })
